@@ -55,6 +55,60 @@ pub fn run(sc: &Value) -> Value {
             .collect();
         extra.insert("edges".into(), Value::Array(es));
     }
+    // the stroker's own output (stroke_to_path is public API): the closed pieces it emits, mapped
+    // to device space, in 1/1024 px - bound to the pieces of Stroke.tla by Trace_StrokeOps
+    if kind == "stroke" && sc["want_stroke_path"].as_bool().unwrap_or(false) {
+        let style = parse_style(&sc["style"], den);
+        let flat0 = path.flatten(0.1);
+        let r = std::panic::catch_unwind(std::panic::AssertUnwindSafe(|| {
+            let flat = if !style.dash_array.is_empty() { verif_dash_path(&flat0, &style.dash_array, style.dash_offset) } else { flat0.clone() };
+            stroke_to_path(&flat, &style).transform(&ctm)
+        }));
+        if let Ok(sp) = r {
+            let q = |v: f32| (v as f64 * 1024.0).round() as i64;
+            let mut polys: Vec<Value> = Vec::new();
+            let mut cur: Vec<Value> = Vec::new();
+            let mut curved = false;
+            let mut flush = |cur: &mut Vec<Value>, curved: &mut bool, polys: &mut Vec<Value>| {
+                if !cur.is_empty() {
+                    polys.push(json!({"pts": cur.clone(), "curved": *curved}));
+                }
+                cur.clear();
+                *curved = false;
+            };
+            for op in &sp.ops {
+                match *op {
+                    PathOp::MoveTo(p) => {
+                        flush(&mut cur, &mut curved, &mut polys);
+                        cur.push(json!([q(p.x), q(p.y)]));
+                    }
+                    PathOp::LineTo(p) => cur.push(json!([q(p.x), q(p.y)])),
+                    PathOp::QuadTo(c, p) => {
+                        curved = true;
+                        cur.push(json!([q(c.x), q(c.y)]));
+                        cur.push(json!([q(p.x), q(p.y)]));
+                    }
+                    PathOp::CubicTo(c1, c2, p) => {
+                        curved = true;
+                        // the curve's own points at t = 1/4, 1/2, 3/4 (control points lie outside a round piece)
+                        if let Some(a) = cur.last().cloned() {
+                            let (ax, ay) = (a[0].as_i64().unwrap() as f64 / 1024.0, a[1].as_i64().unwrap() as f64 / 1024.0);
+                            for t in [0.25f64, 0.5, 0.75] {
+                                let u = 1.0 - t;
+                                let x = u * u * u * ax + 3.0 * u * u * t * c1.x as f64 + 3.0 * u * t * t * c2.x as f64 + t * t * t * p.x as f64;
+                                let y = u * u * u * ay + 3.0 * u * u * t * c1.y as f64 + 3.0 * u * t * t * c2.y as f64 + t * t * t * p.y as f64;
+                                cur.push(json!([(x * 1024.0).round() as i64, (y * 1024.0).round() as i64]));
+                            }
+                        }
+                        cur.push(json!([q(p.x), q(p.y)]));
+                    }
+                    PathOp::Close => flush(&mut cur, &mut curved, &mut polys),
+                }
+            }
+            flush(&mut cur, &mut curved, &mut polys);
+            extra.insert("stroke_polys".into(), Value::Array(polys));
+        }
+    }
     // diagnostics for the I-level dasher specification (not a verdict source)
     if kind == "stroke" && sc["style"].get("dash").is_some() && sc["want_dash_path"].as_bool().unwrap_or(false) {
         let style = parse_style(&sc["style"], den);
